@@ -18,7 +18,7 @@ with the multiplication operator, to construct values such as `11 * e(-21)`.
 from enum import Enum
 from decimal import InvalidOperation, Decimal, Context, MAX_PREC, MAX_EMAX, MIN_EMIN
 from typing import Optional, Any, Union, Tuple
-from pydantic import BaseModel, Field
+from pydantic import BaseModel, ConfigDict, Field
 from pydantic.dataclasses import dataclass
 
 
@@ -31,6 +31,8 @@ _EXACT = Context(prec=MAX_PREC, Emax=MAX_EMAX, Emin=MIN_EMIN)
 
 def _round(num: Decimal) -> Decimal:
     """Round `num` to `EPSILON` decimal places. Unlike the built-in `round`, works for numbers of any magnitude."""
+    if num.is_finite() and num.as_tuple().exponent >= -EPSILON:
+        return num  # No digits beyond that place. (Quantizing would write out every digit of a huge exponent.)
     return _EXACT.quantize(num, Decimal(1).scaleb(-EPSILON))
 
 
@@ -180,6 +182,9 @@ class Prefixed(BaseModel):
     are represented as `Prefixed`.
     """
 
+    # Misspelt fields are errors, not ignored. (`Prefixed(number=1, prefx=KILO)` is not 1.)
+    model_config = ConfigDict(extra="forbid")
+
     # Numeric Portion. See the long note above.
     number: Decimal
     # Enumerated SI Prefix. Defaults to unity.
@@ -313,7 +318,9 @@ class Prefixed(BaseModel):
         return _subtract(lhs=other, rhs=self).scale()
 
     def scale(self, prefix: Prefix = None) -> "Prefixed":
-        """Scale to a new `Prefix`"""
+        """Scale to a new `Prefix`: the one given, or - by default - the closest to our value."""
+        if prefix is not None and not isinstance(prefix, Prefix):
+            raise TypeError(f"Invalid Prefix {prefix!r} to scale {self} to")
         if isinstance(prefix, Prefix):
             newnum = _EXACT.scaleb(self.number, self.prefix.value - prefix.value)
             return Prefixed.new(newnum, prefix)
